@@ -72,7 +72,7 @@ def judge_core(ctx, case, resp):
     for r in (r1, r2):
         if "panic" in r or "died" in r or "timeout" in r:
             ctx.note(key=text, nontrivial=False, labels=["crash(C05)"])
-            return Fail("C01/crash@%s" % r.get("location", "?"), "evaluating %s: %r" % (text, r))
+            return Fail("C01/crash@%s" % r.get("location", "?"), "evaluating %s: %r\n  bindings %r" % (text, r, case["bindings"]))
     if "values" not in r1:
         ctx.note(key=text, nontrivial=False, labels=["rejected"])
         return Fail("C01/rejected", "well-formed core expression rejected: %s -> %r" % (text, r1))
